@@ -13,6 +13,12 @@ Definition l_mem (x : K) (l : list K) : bool := existsb (Nat.eqb x) l.
 Definition opd_mem (x : K) (o : operand) : bool := l_mem x (o_elems o).   (* x in other *)
 Definition all_elems (os : list operand) : list K := flat_map o_elems os.  (* chain.from_iterable *)
 
+(* calls whose single operand is the set itself (aliasing): s.update(s), s &= s, s - s, ... *)
+Inductive selfop :=
+| SUpdate | SIntersectionUpdate | SDifferenceUpdate | SSymDiffUpdate
+| SUnion | SIntersection | SDifference | SSymDiff
+| SIsSubset | SIsSuperset | SIsDisjoint.
+
 Inductive op :=
 (* mutators *)
 | Add (x : K) | Remove (x : K) | Discard (x : K)
@@ -31,7 +37,18 @@ Inductive op :=
 | GetItem (i : Z)
 | Slice (a b : option Z) (k : option nat)  (* s[a:b:k], k positive or omitted *)
 | Index (x : K) | Count (x : K) | Contains (x : K) | Len | Iter | Reversed
-| Snapshot.                                (* every index, negative too, index() of every item *)
+| Snapshot                                 (* every index, negative too, index() of every item *)
+| SelfOp (k : selfop).                     (* the operand is the set itself *)
+
+(* the same call with an explicit operand *)
+Definition expand_self (k : selfop) (o : operand) : op :=
+  match k with
+  | SUpdate => Update [o] | SIntersectionUpdate => IntersectionUpdate [o]
+  | SDifferenceUpdate => DifferenceUpdate [o] | SSymDiffUpdate => SymDiffUpdate o
+  | SUnion => Union [o] | SIntersection => Intersection [o] | SDifference => Difference [o]
+  | SSymDiff => SymDiff o
+  | SIsSubset => IsSubset o | SIsSuperset => IsSuperset o | SIsDisjoint => IsDisjoint o
+  end.
 
 Inductive ret :=
 | RNone | RItem (x : K) | RList (l : list K) | RBool (b : bool) | RNat (n : nat)
